@@ -44,6 +44,15 @@ func TestDbgPaths(t *testing.T) {
 			if rt := os.Getenv("DBG_RECV"); rt != "" && (fd.Recv == nil || nospace(fd.Recv.List[0].Type) != rt) {
 				continue
 			}
+			if tc := os.Getenv("DBG_TCASE"); tc != "" {
+				si := typeSwitchOn(fd, firstParam(fd))
+				if cc := si.Cases[tc]; cc != nil {
+					for _, p := range newNctx(decls).normBlock(fd, cc.Body) {
+						fmt.Println(p.String())
+					}
+				}
+				continue
+			}
 			if os.Getenv("DBG_LOOP") != "" {
 				var lb *ast.BlockStmt
 				ast.Inspect(fd.Body, func(n ast.Node) bool {
